@@ -22,7 +22,8 @@ func init() {
 		Rule: "P producers x K consumers (quick 1..4 each with 1..4 ops, thorough up to 16 x 16) on a ConcurrentQueue/ConcurrentStack wrapping the real LinkedListQueue " +
 			"(statement-level yields inside it) or a harness slice queue/stack with a yield between its load and store; final single-threaded drain; " +
 			"history checked with porcupine against a sequential FIFO/LIFO model plus direct duplicate/lost/invented checks; " +
-			"non-trivial = at least two calls overlapped in the recorded history; distinct = distinct context-switch signature",
+			"non-trivial = at least two calls overlapped in the recorded history; distinct = distinct context-switch signature" +
+			" Flavours: long sequential warm-up backlogs, the wrapped list's node pool trimmed by its owner beforehand, a wrapper of a wrapper with both handles in use.",
 		Real:        []string{"fpgo.ConcurrentQueue", "fpgo.ConcurrentStack", "fpgo.LinkedListQueue", "sync.RWMutex (TryLock-probed)"},
 		Stub:        []string{"goroutine scheduler", "sync.Pool node allocator", "harness slice queue/stack (wrapped implementation variant)"},
 		Assumptions: []string{"porcupine results of Unknown (timeout) are counted as inconclusive and never reported"},
